@@ -716,6 +716,79 @@ fn one(acc: &mut Acc, doc: &Doc, must_parse: bool) {
     report(acc, c.findings);
 }
 
+/// Documents nested deeper than serde_json's own *parser* accepts (its recursion limit is 128) can still be
+/// held by a `serde_json::Value` built programmatically; "arbitrary nesting" is part of the quantifier.
+pub const DEEP_SHAPES: [&str; 4] = ["arrays", "objects", "mixed", "wide-mixed"];
+pub const DEEP_DEPTHS: [usize; 9] = [126, 127, 128, 129, 130, 200, 512, 1000, 2000];
+
+pub fn deep_doc(shape: &str, depth: usize) -> J {
+    let mut v = json!(-0.0);
+    for i in 0..depth {
+        v = match shape {
+            "arrays" => J::Array(vec![v]),
+            "objects" => json!({ "k": v }),
+            "mixed" => {
+                if i % 2 == 0 {
+                    J::Array(vec![v])
+                } else {
+                    json!({ "\u{e9}": v })
+                }
+            }
+            _ => {
+                if i % 3 == 0 {
+                    json!([null, v, 18446744073709551615u64])
+                } else {
+                    json!({ "a": i, "b": v, "c": [-1, 1.5] })
+                }
+            }
+        };
+    }
+    v
+}
+
+pub fn deep_findings(shape: &str, depth: usize) -> Vec<Finding> {
+    let v = deep_doc(shape, depth);
+    let text = format!("<deep:{shape}:{depth}>");
+    let mut findings = vec![];
+    let same = Cell::new(false);
+    let input = v.clone();
+    let vref = &v;
+    let (outcome, events) = monitored(
+        Script::Continue,
+        move || deserr::deserialize::<J, J, Rec>(input),
+        |out: &J| {
+            same.set(out == vref);
+            Proj::Unit
+        },
+    );
+    let n_reports = events.iter().filter(|e| matches!(e, Event::Report(_))).count();
+    match &outcome {
+        Outcome::Ok(_) => {
+            if !same.get() || n_reports != 0 {
+                findings.push(Finding::new(
+                    "C13/deserr-roundtrip/deep-document".to_string(),
+                    "deserialize::<serde_json::Value> of a deeply nested document does not give the same document",
+                    json!({"text": text, "reports": n_reports}),
+                ));
+            }
+        }
+        other => findings.push(Finding::new(
+            format!("C13/deserr-roundtrip/deep-document-{}", if matches!(other, Outcome::Panic(_)) { "panic" } else { "failed" }),
+            "deserialize::<serde_json::Value> failed on a document serde_json can hold (nesting deeper than serde_json's parser limit, built programmatically)",
+            json!({"text": text, "outcome": other.show(), "reports": n_reports, "first_report": events.iter().find_map(|e| if let Event::Report(r) = e { Some(format!("{:?} at depth {}", r.kind, r.loc.len())) } else { None })}),
+        )),
+    }
+    let back = J::from(v.clone().into_value());
+    if back != v || serde_json::to_string(&back).ok() != serde_json::to_string(&v).ok() {
+        findings.push(Finding::new(
+            "C13/from-roundtrip/deep-document".to_string(),
+            "serde_json::Value::from(v.into_value()) is not the same document for a deeply nested document",
+            json!({"text": text}),
+        ));
+    }
+    findings
+}
+
 pub fn run(ctx: &Ctx) -> i32 {
     let max_size: usize = ctx.tier.pick(4, 5);
     let n_random: u64 = ctx.tier.pick(100_000, 3_000_000);
@@ -764,6 +837,19 @@ pub fn run(ctx: &Ctx) -> i32 {
                 }
             }
         }
+        // deeply nested documents built programmatically (126 .. 2000 levels)
+        let mut dj = 0u64;
+        for shape in DEEP_SHAPES {
+            for depth in DEEP_DEPTHS {
+                if shard_of(dj, shard, n) {
+                    acc.eval();
+                    acc.count("deep_documents");
+                    acc.nontrivial(&(shape, depth));
+                    report(&mut acc, deep_findings(shape, depth));
+                }
+                dj += 1;
+            }
+        }
         // seeded random documents, depth <= 6
         let mut rng = Rng::derive(ctx.seed, 0xC13, shard as u64);
         let mine = n_random / n as u64 + u64::from((shard as u64) < n_random % n as u64);
@@ -781,7 +867,7 @@ pub fn run(ctx: &Ctx) -> i32 {
         Finish {
             level: "exploration",
             rule: format!(
-                "JSON documents generated as text and parsed with serde_json::from_str. Exhaustive (seed independent): every document of at most {max_size} nodes over the 12 scalar literals {SCALARS:?} and the 3 keys \"a\", \"\", \"\\u00e9\" (arrays; objects with distinct keys in every order), plus {} numeric boundary literals each bare / in arrays / as object members / nested. Plus {n_random} seeded random documents of depth <= 6 (integer literals of 1..25 digits, values around u64::MAX, i64::MIN, i64::MAX, 2^53, fractions, exponents, escaped and non-ASCII strings and keys). Per document: deserialize::<serde_json::Value,_,Rec> gives the same document (== and serialized text) with no report; Value::from(into_value()) gives the same document (== and text); at every node kind() == into_value().kind(); every number's kind equals the kind computed from the literal's syntax. Non-trivial = the document contains a number that is not a small plain non-negative integer, a container inside a container, or a non-ASCII / escaped string; distinct = distinct document text.",
+                "JSON documents generated as text and parsed with serde_json::from_str. Exhaustive (seed independent): every document of at most {max_size} nodes over the 12 scalar literals {SCALARS:?} and the 3 keys \"a\", \"\", \"\\u00e9\" (arrays; objects with distinct keys in every order), plus {} numeric boundary literals each bare / in arrays / as object members / nested. Plus 36 documents nested 126..2000 levels deep (arrays / objects / mixed, built programmatically because serde_json's parser stops at 128 while serde_json::Value can hold any depth), round-tripped both ways. Plus {n_random} seeded random documents of depth <= 6 (integer literals of 1..25 digits, values around u64::MAX, i64::MIN, i64::MAX, 2^53, fractions, exponents, escaped and non-ASCII strings and keys). Per document: deserialize::<serde_json::Value,_,Rec> gives the same document (== and serialized text) with no report; Value::from(into_value()) gives the same document (== and text); at every node kind() == into_value().kind(); every number's kind equals the kind computed from the literal's syntax. Non-trivial = the document contains a number that is not a small plain non-negative integer, a container inside a container, or a non-ASCII / escaped string; distinct = distinct document text.",
                 BOUNDARY_NUMBERS.len()
             ),
             exhaustive: true,
@@ -893,6 +979,13 @@ pub fn parse_doc(text: &str) -> Result<Doc, String> {
 
 pub fn replay(w: &J) -> Result<Vec<Finding>, String> {
     let text = w["text"].as_str().ok_or("witness has no document text")?;
+    if let Some(rest) = text.strip_prefix("<deep:") {
+        let mut it = rest.trim_end_matches('>').split(':');
+        let shape = it.next().unwrap_or("arrays").to_string();
+        let depth: usize = it.next().and_then(|d| d.parse().ok()).ok_or("bad deep witness")?;
+        println!("deep document, shape {shape}, depth {depth}");
+        return Ok(deep_findings(&shape, depth));
+    }
     let doc = parse_doc(text)?;
     let v: J = serde_json::from_str(text).map_err(|e| format!("serde_json refuses the document: {e}"))?;
     println!("document {text}");
